@@ -240,6 +240,27 @@ def run(ctx, spec):
                 return
     else:
         rng = ctx.rng("rand")
+        # large species trees (33-90 leaves: 65+ nodes, ancestry structures past their small-tree regime); mappings
+        # drawn by the model's random generator (enumeration is out of reach), evaluator only
+        from rv.refmodel import trees as RT
+
+        for _ in range(max(2, spec["count"] // 25)):
+            ns = rng.choice([33, 40, 64, 65, 90])
+            no = rng.randint(4, 9)
+            spl = [f"s{i}" for i in range(ns)]
+            Sn = RT.random_tree_shape(rng, spl, kind=rng.choice(["rand", "bal", "rand"]))
+            Gn = RT.random_tree_shape(rng, gen.object_labels(no))
+            lm = {g: rng.choice(spl) for g in gen.object_labels(no)}
+            syn3 = gen.random_syntenies(rng, list(lm), 3, ordered=True, consistent_p=1.0)
+            case = {"kind": "eval", "G": Gn, "S": Sn, "leafmap": lm, "costs": gen.random_cost(rng, coherent_only=False), "syn": syn3}
+            B = bridge.Built(case)
+            exts = label.linear_extensions([tuple(s) for s in syn3.values()])
+            ctx.count("big_species_cases")
+            for _k in range(6):
+                m = dtl.random_rec(rng, B.G, B.S, B.leafmap, high_p=rng.choice([0.1, 0.5, 0.9]))
+                check_one(ctx, case, B, m)
+                check_one(ctx, case, B, m, random_ordered_labelling(rng, B, rng.choice(exts)), True)
+                check_one(ctx, case, B, m, random_unordered_labelling(rng, B), False)
         for _ in range(spec["count"]):
             Gn, Sn, lm = gen.random_input(rng, spec["max_obj"], spec["max_sp"], min_obj=2)
             c = gen.random_cost(rng, coherent_only=False)
